@@ -397,3 +397,23 @@ def flow_rules(prog, R):
             R.add('SEEK-2', b, 'consistent-on-every-exit#%d' % n, ok, site(b, stt.line),
                   'after the source was repositioned, seek can return (e.g. with the error of the seek or of the refill) while the buffer offsets still refer to the discarded buffer: %s' % (not ok))
     R.floor('SEEK-2', 2)
+    # ---------------- SEEK-3: a failed repositioning discards the buffer
+    R.rule('SEEK-3', 'when seek fails after it has tried to reposition the source, the buffer is emptied (consume(buffer length)) before returning: its content no longer corresponds to the recorded position, and a later seek must not take the in-buffer shortcut into it')
+    for fmt in ('fasta', 'fastq'):
+        try:
+            b = prog.get('%s::Reader::seek' % fmt)
+        except KeyError:
+            continue
+        du = DefUse(b)
+        srcseek = [(x, t) for x, t in b.calls() if t.callee and t.callee.is_('std::io::Seek::seek')]
+        okret = set(x for x in b.cfg.reachable if any(st.k == 'assign' and st.place.local == 0 and st.rv.k == 'agg' and st.rv.j.get('variant') == 'Ok' for st in b.blocks[x].stmts))
+        discard = set(x for x, t in b.calls() if is_discard_all(prog, b, t, du))
+        n = 0
+        for sx, stt in srcseek:
+            n += 1
+            # exits reachable from the source seek without passing an Ok-return assignment = failure exits
+            fail_exits = [r for r in b.cfg.exits if r in b.cfg.reach_from(sx, removed=okret)]
+            bad = [r for r in fail_exits if r in b.cfg.reach_from(sx, removed=okret | discard)]
+            R.add('SEEK-3', b, 'failed-seek-discards-buffer#%d' % n, not bad and bool(fail_exits), site(b, stt.line),
+                  'seek can fail after trying to reposition the source and return with the old buffer content still in place: %s' % bool(bad))
+    R.floor('SEEK-3', 2)
